@@ -67,4 +67,10 @@ Section Closed.
     - intros; eapply fam_metric; eauto.
     - intros; eapply fam_has_met; eauto.
   Qed.
+
+  Lemma c_history cs rc (h : cen A P) (pre post : list (bool * env A)) (c : bool * env A) dflt :
+    nth (length pre)
+        (call_seq A a0 a1 ahalf aadd amul asub anonneg apowm2 P ptab plog psqrt dims (simplifyC cs rc h) (pre ++ c :: post)) dflt
+    = linC (fst c) (simplifyC cs rc h) (snd c).
+  Proof. eapply call_seq_pure; eauto. Qed.
 End Closed.
